@@ -23,7 +23,11 @@ from pycoin.encoding.sec import sec_to_public_pair, public_pair_to_sec
 MANIFEST = {
     "text": "Lean model of pycoin's script VM (decoder, conditional counters, every opcode handler, CHECKSIG family, "
             "check_solution pipeline) tied to the code by generated tables and differential correspondence (stack, alt stack, "
-            "op count, code-separator position, errno); theorems C03M_* relate the model to the consensus specification.",
+            "op count, code-separator position, errno). Theorems C03M_*: the conditional counters abstract Core's vfExec for every "
+            "op sequence; IntStreamer = CScriptNum, bool_from_script_bytes = CastToBool; get_opcode = GetScriptOp + CheckMinimalPush for "
+            "every script and pc; for every opcode outside the CHECKSIG family and every state, eval_instruction = one iteration of "
+            "Core's loop (handlers taken from the generated INSTRUCTION_LOOKUP); eval_script = EvalScript (verdict and final stack) "
+            "for every script without CHECKSIG-family instructions, by induction on the loop.",
     "note": "Signature verification proper and the hash functions are parameters of the model (sig-oracle table computed "
             "by the real pycoin sighash + ECDSA on the Python side).",
     "technique": "Lean 4 proof over an executable model + differential correspondence model vs implementation",
